@@ -132,3 +132,21 @@ Definition check3 (c : case3) : bool :=
          && run_ok (fun _ _ => O) [∅] rs obs1
   end.
 Definition mismatches := mismatches_with check3.
+
+(* ---- the functions this file evaluates are the model's (Lib/SipHashFast.v proves the fast
+   SipHash equal to the reference one; the memo table only caches) *)
+From RV Require Import Lib.Bytes.
+Lemma hash_slice_f_eq k : hash_slice_f k = hash_slice k.
+Proof. unfold hash_slice_f, hash_slice. by rewrite sip13f_eq, le64f_eq. Qed.
+Lemma hash_str_f_eq k : hash_str_f k = hash_str k.
+Proof. unfold hash_str_f, hash_str. by rewrite sip13f_eq. Qed.
+Lemma home_f_eq n k : home_f n k = home_bytes n k.
+Proof. unfold home_f, home_bytes, route_bytes. by rewrite hash_slice_f_eq. Qed.
+Lemma home_f_str n k : home_f n k = home_str n k.
+Proof. apply home_f_eq. Qed.
+Lemma memo_home_eq n facts k : memo_home (memo_table n facts) n k = home_f n k.
+Proof.
+  unfold memo_home. induction facts as [|[x o a b c d e hs hb] facts IH]; [done|]. cbn.
+  destruct (bytes_eqb k (unhex x)) eqn:E; [|exact IH].
+  apply bytes_eqb_eq in E. by subst.
+Qed.
